@@ -4,152 +4,534 @@ import (
 	"fmt"
 	"go/ast"
 	"go/token"
+	"sort"
 	"strings"
 )
 
-// Fee arithmetic of invoke transactions (C05): the loop-free uint64 helpers of core/store/ledgerstore/tx_handler.go
-// and the constants they use, translated statement by statement into Lean `UInt64` code (Go's wrapping + - *,
-// truncating /; a division whose divisor is not a literal is guarded: the function returns `none` = Go panic).
+// Fee arithmetic of invoke transactions (C05), read from core/store/ledgerstore (whole package) and neovm/config.go:
 //
-// Statement shapes accepted (anything else is an error naming the site):
-//   x := e | if c { … return … } [else { … }] | return e
-// where every block that is translated ends in a return. Expressions: identifiers that are parameters or locals,
-// integer literals, math.MaxUint64, + - * /, comparisons, parentheses.
+//   - constants MIN_TRANSACTION_GAS, PER_UNIT_CODE_LEN, UINT_INVOKE_CODE_LEN_GAS;
+//   - calcGasByCodeLen and tuneGasFeeByHeight translated into Lean `UInt64` code (Go's wrapping + - *, truncating /; a
+//     division whose divisor is not a literal returns `none` = Go panic, at the program point where Go evaluates it);
+//   - the order of fee effects of HandleInvokeTransaction: every call of tuneGasFeeByHeight / costInvalidGas /
+//     chargeCostGas reachable from it (also through same-package helpers), with the ROLE of its arguments.
+//
+// Nothing is located by the names of locals. A function is read as a DECISION LIST (guardsOf): every `return e` with the
+// conditions under which it is reached, in source order — so nested if/else, guard clauses with early returns and tag-less
+// switches give the same fact; locals are inlined (inlineLocals); parameters are renamed by position; a call of a
+// same-package helper whose body is itself a pure decision list over its parameters (minUint64 …) or of the builtin
+// min/max is inlined; `height > tuneHeight` in any orientation / polarity becomes the Lean parameter `tuned`.
+// What is not understood is an error naming the site, never a guess.
 func init() { Register("Gas", genGas) }
 
-const gasFile = "core/store/ledgerstore/tx_handler.go"
+const gasPkg = "core/store/ledgerstore"
 const neovmCfg = "smartcontract/service/neovm/config.go"
 
-type u64tr struct {
-	fset   *token.FileSet
-	idents map[string]bool // known UInt64 variables
+// ---------------------------------------------------------------------------------------------------------------------
+// expression translation
+
+type gasTr struct {
+	fset  *token.FileSet
+	funcs map[string]*ast.FuncDecl
+	site  string
+	u64   map[string]string // Go identifier -> Lean term (UInt64)
+	nat   map[string]string // Go identifier / printed expression -> Lean term (Nat), for int expressions under uint64(..)
+	flag  func(e ast.Expr) (lean string, ok bool) // comparisons that become a boolean parameter
+	depth int
 }
 
-func (t *u64tr) expr(e ast.Expr, divisors *[]string) (string, error) {
+func (t *gasTr) errf(format string, a ...interface{}) error {
+	return fmt.Errorf("%s: %s", t.site, fmt.Sprintf(format, a...))
+}
+
+// val translates a uint64-valued expression; divisors collects the Lean text of every non-literal divisor.
+func (t *gasTr) val(e ast.Expr, divisors *[]string) (string, error) {
 	switch x := e.(type) {
 	case *ast.ParenExpr:
-		in, err := t.expr(x.X, divisors)
-		if err != nil {
-			return "", err
-		}
-		return "(" + in + ")", nil
+		return t.val(x.X, divisors)
 	case *ast.Ident:
-		if t.idents[x.Name] {
-			return x.Name, nil
+		if v, ok := t.u64[x.Name]; ok {
+			return v, nil
 		}
+		return "", t.errf("identifier `%s` is neither a parameter nor a simply-defined local", x.Name)
 	case *ast.BasicLit:
 		if x.Kind == token.INT {
 			return x.Value, nil
 		}
 	case *ast.SelectorExpr:
-		if exprString(t.fset, x) == "math.MaxUint64" {
+		if flat(t.fset, x) == "math.MaxUint64" {
 			return "18446744073709551615", nil
 		}
 	case *ast.BinaryExpr:
-		l, err := t.expr(x.X, divisors)
-		if err != nil {
-			return "", err
-		}
-		r, err := t.expr(x.Y, divisors)
-		if err != nil {
-			return "", err
-		}
 		switch x.Op {
-		case token.ADD, token.SUB, token.MUL:
-			return "(" + l + " " + x.Op.String() + " " + r + ")", nil
-		case token.QUO:
-			if _, lit := x.Y.(*ast.BasicLit); !lit {
-				*divisors = append(*divisors, r)
+		case token.ADD, token.SUB, token.MUL, token.QUO:
+			l, err := t.val(x.X, divisors)
+			if err != nil {
+				return "", err
 			}
-			return "(" + l + " / " + r + ")", nil
-		case token.GTR, token.LSS, token.GEQ, token.LEQ:
+			r, err := t.val(x.Y, divisors)
+			if err != nil {
+				return "", err
+			}
+			if x.Op == token.QUO {
+				if _, lit := stripParens(x.Y).(*ast.BasicLit); !lit {
+					*divisors = append(*divisors, r)
+				}
+			}
 			return "(" + l + " " + x.Op.String() + " " + r + ")", nil
-		case token.EQL:
-			return "(" + l + " = " + r + ")", nil
-		case token.NEQ:
-			return "(" + l + " ≠ " + r + ")", nil
+		}
+	case *ast.CallExpr:
+		if id, ok := x.Fun.(*ast.Ident); ok {
+			if id.Name == "uint64" && len(x.Args) == 1 { // conversion of a non-negative int expression
+				in, err := intExprToLean(t.fset, stripParens(x.Args[0]), t.nat)
+				if err != nil {
+					return "", t.errf("%v", err)
+				}
+				return "(UInt64.ofNat " + in + ")", nil
+			}
+			if (id.Name == "min" || id.Name == "max") && len(x.Args) == 2 && t.funcs[id.Name] == nil { // builtin
+				a, err := t.val(x.Args[0], divisors)
+				if err != nil {
+					return "", err
+				}
+				b, err := t.val(x.Args[1], divisors)
+				if err != nil {
+					return "", err
+				}
+				if id.Name == "min" {
+					return "(if " + b + " < " + a + " then " + b + " else " + a + ")", nil
+				}
+				return "(if " + a + " < " + b + " then " + b + " else " + a + ")", nil
+			}
+		}
+		if fd := calleeOf(t.funcs, x); fd != nil {
+			return t.inlineHelper(fd, x.Args, divisors)
 		}
 	}
-	return "", fmt.Errorf("unsupported expression shape: %s", exprString(t.fset, e))
+	return "", t.errf("unsupported expression shape: %s", flat(t.fset, e))
 }
 
-// guard prefixes `body` (already indented by ind) with one zero test per non-literal divisor
-func guard(ind string, divs []string, body string) string {
-	for _, d := range divs {
-		body = ind + "if " + d + " = 0 then none else\n" + body
+// inlineHelper: a same-package function all of whose parameters and whose single result are uint64 and whose body is a
+// division-free decision list over its parameters is replaced by that decision list applied to the arguments.
+func (t *gasTr) inlineHelper(fd *ast.FuncDecl, args []ast.Expr, divisors *[]string) (string, error) {
+	if t.depth > 3 {
+		return "", t.errf("helper nesting too deep at %s", fd.Name.Name)
 	}
-	return body
+	var params []string
+	for _, fl := range fd.Type.Params.List {
+		if flat(t.fset, fl.Type) != "uint64" {
+			return "", t.errf("helper %s: parameter type %s is not uint64", fd.Name.Name, flat(t.fset, fl.Type))
+		}
+		for _, n := range fl.Names {
+			params = append(params, n.Name)
+		}
+	}
+	if fd.Type.Results == nil || len(fd.Type.Results.List) != 1 || flat(t.fset, fd.Type.Results.List[0].Type) != "uint64" || len(params) != len(args) {
+		return "", t.errf("helper %s is not of the form func(uint64…) uint64", fd.Name.Name)
+	}
+	sub := &gasTr{fset: t.fset, funcs: t.funcs, site: t.site + " -> " + fd.Name.Name, u64: map[string]string{}, nat: map[string]string{}, depth: t.depth + 1}
+	for i, p := range params {
+		a, err := t.val(args[i], divisors)
+		if err != nil {
+			return "", err
+		}
+		sub.u64[p] = a
+	}
+	entries, err := sub.decisionList(fd)
+	if err != nil {
+		return "", err
+	}
+	for _, en := range entries {
+		if en.check || len(en.divs) > 0 {
+			return "", sub.errf("helper with a division is not inlined")
+		}
+	}
+	return "(" + renderPure(entries) + ")", nil
 }
 
-// stmts translates a statement list that must end by returning on every path; `rest` is appended when a block falls through.
-func (t *u64tr) stmts(list []ast.Stmt, ind string) (string, error) {
-	if len(list) == 0 {
-		return "", fmt.Errorf("statement list falls through without a return")
+// prop translates a condition.
+func (t *gasTr) prop(e ast.Expr, divisors *[]string) (string, error) {
+	e = stripParens(e)
+	if t.flag != nil {
+		if s, ok := t.flag(e); ok {
+			return s, nil
+		}
 	}
-	s, rest := list[0], list[1:]
-	switch x := s.(type) {
-	case *ast.ReturnStmt:
-		if len(x.Results) != 1 {
-			return "", fmt.Errorf("return with %d results", len(x.Results))
-		}
-		var divs []string
-		e, err := t.expr(x.Results[0], &divs)
-		if err != nil {
-			return "", err
-		}
-		return guard(ind, divs, ind+"some "+e), nil
-	case *ast.AssignStmt:
-		if len(x.Lhs) != 1 || len(x.Rhs) != 1 || x.Tok != token.DEFINE {
-			return "", fmt.Errorf("unsupported assignment: %s", exprString(t.fset, x))
-		}
-		id, ok := x.Lhs[0].(*ast.Ident)
-		if !ok {
-			return "", fmt.Errorf("unsupported assignment target: %s", exprString(t.fset, x))
-		}
-		var divs []string
-		e, err := t.expr(x.Rhs[0], &divs)
-		if err != nil {
-			return "", err
-		}
-		t.idents[id.Name] = true
-		tail, err := t.stmts(rest, ind)
-		if err != nil {
-			return "", err
-		}
-		return guard(ind, divs, ind+"let "+id.Name+" := "+e+"\n"+tail), nil
-	case *ast.IfStmt:
-		if x.Init != nil {
-			return "", fmt.Errorf("if with init statement: %s", exprString(t.fset, x.Cond))
-		}
-		var divs []string
-		c, err := t.expr(x.Cond, &divs)
-		if err != nil {
-			return "", err
-		}
-		thenS, err := t.stmts(x.Body.List, ind+"  ")
-		if err != nil {
-			return "", fmt.Errorf("in `if %s`: %v", exprString(t.fset, x.Cond), err)
-		}
-		var elseS string
-		if x.Else != nil {
-			eb, ok := x.Else.(*ast.BlockStmt)
-			if !ok {
-				return "", fmt.Errorf("else-if chains are not supported")
+	switch x := e.(type) {
+	case *ast.UnaryExpr:
+		if x.Op == token.NOT {
+			in, err := t.prop(x.X, divisors)
+			if err != nil {
+				return "", err
 			}
-			if len(rest) != 0 {
-				return "", fmt.Errorf("statements after if/else")
+			return "(¬ " + in + ")", nil
+		}
+	case *ast.BinaryExpr:
+		switch x.Op {
+		case token.LAND, token.LOR:
+			l, err := t.prop(x.X, divisors)
+			if err != nil {
+				return "", err
 			}
-			elseS, err = t.stmts(eb.List, ind+"  ")
-		} else {
-			elseS, err = t.stmts(rest, ind+"  ")
+			r, err := t.prop(x.Y, divisors)
+			if err != nil {
+				return "", err
+			}
+			return "(" + l + map[token.Token]string{token.LAND: " ∧ ", token.LOR: " ∨ "}[x.Op] + r + ")", nil
+		case token.GTR, token.LSS, token.GEQ, token.LEQ, token.EQL, token.NEQ:
+			l, err := t.val(x.X, divisors)
+			if err != nil {
+				return "", err
+			}
+			r, err := t.val(x.Y, divisors)
+			if err != nil {
+				return "", err
+			}
+			op := map[token.Token]string{token.GTR: ">", token.LSS: "<", token.GEQ: "≥", token.LEQ: "≤", token.EQL: "=", token.NEQ: "≠"}[x.Op]
+			return "(" + l + " " + op + " " + r + ")", nil
 		}
-		if err != nil {
-			return "", err
-		}
-		return guard(ind, divs, ind+"if "+c+" then\n"+thenS+"\n"+ind+"else\n"+elseS), nil
 	}
-	return "", fmt.Errorf("unsupported statement: %s", exprString(t.fset, s))
+	return "", t.errf("unsupported condition shape: %s", flat(t.fset, e))
 }
+
+// ---------------------------------------------------------------------------------------------------------------------
+// decision lists
+
+type dlEntry struct {
+	guards []string // conjunction; empty = always
+	check  bool     // true: a definition whose right-hand side divides (only the zero test matters here)
+	divs   []string
+	value  string
+}
+
+// decisionList reads fd's body: every `return e` (and every definition that divides) with its guards, in source order.
+func (t *gasTr) decisionList(fd *ast.FuncDecl) ([]dlEntry, error) {
+	defs := singleDefs(fd)
+	var out []dlEntry
+	var firstErr error
+	fail := func(err error) {
+		if firstErr == nil {
+			firstErr = err
+		}
+	}
+	// a condition that divides (directly or through an inlined local) is evaluated before the statement it guards: its
+	// zero test is put in front, under the conditions that precede it
+	emitted := map[string]bool{}
+	guardStrings := func(gs []cond, _ *[]string) []string {
+		var ss []string
+		for _, g := range gs {
+			var ds []string
+			p, err := t.prop(inlineLocals(g.e, defs), &ds)
+			if err != nil {
+				fail(err)
+				return nil
+			}
+			if len(ds) > 0 {
+				key := conj(ss) + "|" + strings.Join(ds, ",")
+				if !emitted[key] {
+					emitted[key] = true
+					out = append(out, dlEntry{guards: append([]string{}, ss...), check: true, divs: ds})
+				}
+			}
+			if !g.pos {
+				p = "(¬ " + p + ")"
+			}
+			ss = append(ss, p)
+		}
+		return ss
+	}
+	guardsOf(fd.Body.List, nil, func(s ast.Stmt, gs []cond) {
+		switch x := s.(type) {
+		case *ast.ReturnStmt:
+			if len(x.Results) != 1 {
+				fail(t.errf("return with %d results", len(x.Results)))
+				return
+			}
+			var gd, vd []string
+			g := guardStrings(gs, &gd)
+			v, err := t.val(inlineLocals(x.Results[0], defs), &vd)
+			if err != nil {
+				fail(err)
+				return
+			}
+			out = append(out, dlEntry{guards: g, divs: vd, value: v})
+		case *ast.AssignStmt:
+			// a definition is inlined where it is used; but Go evaluates its right-hand side HERE, so a division in
+			// it panics here whatever happens later: keep the zero test at this point of the list
+			if x.Tok != token.DEFINE || len(x.Lhs) != 1 || len(x.Rhs) != 1 {
+				fail(t.errf("unsupported assignment: %s", flat(t.fset, x)))
+				return
+			}
+			if t.flag != nil && t.isFlagSource(x.Rhs[0]) {
+				return
+			}
+			id, ok := x.Lhs[0].(*ast.Ident)
+			if !ok || defs.resolve(&ast.Ident{Name: id.Name, NamePos: x.End()}) == nil {
+				fail(t.errf("local `%s` is re-assigned or not simply defined: %s", flat(t.fset, x.Lhs[0]), flat(t.fset, x)))
+				return
+			}
+			var gd, vd []string
+			g := guardStrings(gs, &gd)
+			if _, err := t.val(inlineLocals(x.Rhs[0], defs), &vd); err != nil {
+				fail(err)
+				return
+			}
+			if key := conj(g) + "|" + strings.Join(vd, ","); len(vd) > 0 && !emitted[key] {
+				emitted[key] = true
+				out = append(out, dlEntry{guards: g, check: true, divs: vd})
+			}
+		case *ast.DeclStmt, *ast.EmptyStmt:
+		default:
+			fail(t.errf("unsupported statement: %s", flat(t.fset, s)))
+		}
+	})
+	if firstErr != nil {
+		return nil, firstErr
+	}
+	if len(out) == 0 || out[len(out)-1].check {
+		return nil, t.errf("no final return found")
+	}
+	return out, nil
+}
+
+func (t *gasTr) isFlagSource(e ast.Expr) bool { return strings.Contains(flat(t.fset, e), "GetGasRoundTuneHeight(") }
+
+func conj(gs []string) string {
+	if len(gs) == 0 {
+		return "True"
+	}
+	return strings.Join(gs, " ∧ ")
+}
+
+// renderPure: division-free decision list as a Lean expression; the last return closes the list (Go guarantees that
+// every path returns).
+func renderPure(es []dlEntry) string {
+	s := es[len(es)-1].value
+	for i := len(es) - 2; i >= 0; i-- {
+		s = "if " + conj(es[i].guards) + " then " + es[i].value + " else " + s
+	}
+	return s
+}
+
+// renderOpt: decision list as `Option UInt64` (none = integer divide by zero), one entry per line.
+func renderOpt(es []dlEntry, ind string) string {
+	zero := func(ds []string) string {
+		var z []string
+		for _, d := range ds {
+			z = append(z, d+" = 0")
+		}
+		return strings.Join(z, " ∨ ")
+	}
+	val := func(e dlEntry) string {
+		if len(e.divs) > 0 {
+			return "(if " + zero(e.divs) + " then none else some " + e.value + ")"
+		}
+		return "some " + e.value
+	}
+	var sb strings.Builder
+	for i, e := range es {
+		last := i == len(es)-1
+		switch {
+		case e.check:
+			fmt.Fprintf(&sb, "%sif (%s) ∧ (%s) then none else\n", ind, conj(e.guards), zero(e.divs))
+		case last:
+			fmt.Fprintf(&sb, "%s%s", ind, val(e))
+		default:
+			fmt.Fprintf(&sb, "%sif %s then %s else\n", ind, conj(e.guards), val(e))
+		}
+	}
+	return sb.String()
+}
+
+// ---------------------------------------------------------------------------------------------------------------------
+// fee effects of HandleInvokeTransaction
+
+// canonMul: a product of uint64 factors printed with sorted factors (A*B ≡ B*A); fields of the transaction parameter are
+// printed as Tx.<Field> whatever the parameter is called.
+func canonTerm(fset *token.FileSet, e ast.Expr, txParam string) string {
+	e = stripParens(e)
+	if be, ok := e.(*ast.BinaryExpr); ok && be.Op == token.MUL {
+		var fs []string
+		var collect func(x ast.Expr)
+		collect = func(x ast.Expr) {
+			x = stripParens(x)
+			if b, ok := x.(*ast.BinaryExpr); ok && b.Op == token.MUL {
+				collect(b.X)
+				collect(b.Y)
+				return
+			}
+			fs = append(fs, canonTerm(fset, x, txParam))
+		}
+		collect(be)
+		sort.Strings(fs)
+		return "mul(" + strings.Join(fs, ",") + ")"
+	}
+	if se, ok := e.(*ast.SelectorExpr); ok {
+		if id, ok := se.X.(*ast.Ident); ok && id.Name == txParam && txParam != "" {
+			return "Tx." + se.Sel.Name
+		}
+	}
+	return flat(fset, e)
+}
+
+type feeWalker struct {
+	fset    *token.FileSet
+	funcs   map[string]*ast.FuncDecl
+	effects []string
+	err     error
+}
+
+// paramOfType returns the name of the (first) parameter whose printed type contains typ.
+func paramOfType(fset *token.FileSet, fd *ast.FuncDecl, typ string) string {
+	for _, fl := range fd.Type.Params.List {
+		if strings.Contains(flat(fset, fl.Type), typ) {
+			for _, n := range fl.Names {
+				return n.Name
+			}
+		}
+	}
+	return ""
+}
+
+// walk visits fd in source order; env maps a parameter of fd to the role of the argument it was called with.
+func (w *feeWalker) walk(fd *ast.FuncDecl, env map[string]string, depth int) {
+	defs := singleDefs(fd)
+	txParam := paramOfType(w.fset, fd, "types.Transaction")
+	// assignments in source order: which names currently hold a balance read / a tuned fee
+	type asg struct {
+		pos  token.Pos
+		name string
+		role string
+	}
+	var asgs []asg
+	balanceReads := 0
+	roleOf := func(e ast.Expr, at token.Pos) string {
+		e = stripParens(e)
+		if id, ok := e.(*ast.Ident); ok {
+			role := ""
+			for _, a := range asgs {
+				if a.name == id.Name && a.pos < at {
+					role = a.role
+				}
+			}
+			if role != "" {
+				return role
+			}
+			if r, ok := env[id.Name]; ok {
+				return r
+			}
+		}
+		return canonTerm(w.fset, inlineLocals(e, defs), txParam)
+	}
+	var visitCall func(ce *ast.CallExpr, lhs []ast.Expr, at token.Pos)
+	visitCall = func(ce *ast.CallExpr, lhs []ast.Expr, at token.Pos) {
+		name := ""
+		switch f := ce.Fun.(type) {
+		case *ast.Ident:
+			name = f.Name
+		case *ast.SelectorExpr:
+			name = f.Sel.Name
+		}
+		bind := func(role string) {
+			if len(lhs) > 0 {
+				if id, ok := lhs[0].(*ast.Ident); ok && id.Name != "_" {
+					asgs = append(asgs, asg{at, id.Name, role})
+				}
+			}
+		}
+		switch name {
+		case "getBalanceFromNative":
+			if depth == 0 { // only the reads of HandleInvokeTransaction itself define old / new
+				k := balanceReads
+				if k > 2 {
+					k = 2
+				}
+				bind([]string{"old", "new", "balance#3"}[k])
+				balanceReads++
+			}
+		case "tuneGasFeeByHeight":
+			if len(ce.Args) != 4 {
+				w.err = fmt.Errorf("%s: tuneGasFeeByHeight called with %d arguments", fd.Name.Name, len(ce.Args))
+				return
+			}
+			w.effects = append(w.effects, fmt.Sprintf("tune(round=%s,balance=%s)", roleOf(ce.Args[2], at), roleOf(ce.Args[3], at)))
+			bind("tuned")
+		case "costInvalidGas", "chargeCostGas":
+			if len(ce.Args) < 2 {
+				w.err = fmt.Errorf("%s: %s called with %d arguments", fd.Name.Name, name, len(ce.Args))
+				return
+			}
+			w.effects = append(w.effects, fmt.Sprintf("%s(%s)", name, roleOf(ce.Args[1], at)))
+		default:
+			callee := calleeOf(w.funcs, ce)
+			if callee == nil || depth >= 3 || !w.reaches(callee, 3) {
+				return
+			}
+			sub := map[string]string{}
+			i := 0
+			for _, fl := range callee.Type.Params.List {
+				for _, n := range fl.Names {
+					if i < len(ce.Args) {
+						sub[n.Name] = roleOf(ce.Args[i], at)
+					}
+					i++
+				}
+			}
+			before := len(w.effects)
+			w.walk(callee, sub, depth+1)
+			// a helper that returns the fee it tuned hands the role on to the variable it is assigned to
+			if len(w.effects) > before {
+				for _, e := range w.effects[before:] {
+					if strings.HasPrefix(e, "tune(") {
+						bind("tuned")
+						break
+					}
+				}
+			}
+		}
+	}
+	ast.Inspect(fd.Body, func(n ast.Node) bool {
+		if w.err != nil {
+			return false
+		}
+		switch x := n.(type) {
+		case *ast.AssignStmt:
+			if len(x.Rhs) == 1 {
+				if ce, ok := x.Rhs[0].(*ast.CallExpr); ok {
+					for _, a := range ce.Args { // calls nested in arguments first
+						ast.Inspect(a, func(m ast.Node) bool {
+							if c2, ok := m.(*ast.CallExpr); ok {
+								visitCall(c2, nil, x.Pos())
+							}
+							return true
+						})
+					}
+					visitCall(ce, x.Lhs, x.End())
+					return false
+				}
+			}
+		case *ast.CallExpr:
+			visitCall(x, nil, x.Pos())
+		}
+		return true
+	})
+}
+
+// reaches: does fd (transitively, same package) call one of the fee functions?
+func (w *feeWalker) reaches(fd *ast.FuncDecl, depth int) bool {
+	found := false
+	walkDeep(w.funcs, fd, depth, func(n ast.Node, _ *ast.FuncDecl) bool {
+		if ce, ok := n.(*ast.CallExpr); ok {
+			if id, ok := ce.Fun.(*ast.Ident); ok && (id.Name == "tuneGasFeeByHeight" || id.Name == "costInvalidGas" || id.Name == "chargeCostGas") {
+				found = true
+			}
+		}
+		return true
+	})
+	return found
+}
+
+// ---------------------------------------------------------------------------------------------------------------------
 
 func constValue(repo, file, name string) (string, error) {
 	fset, f, err := parseFile(repo, file)
@@ -182,6 +564,21 @@ func constValue(repo, file, name string) (string, error) {
 	return found, nil
 }
 
+// gasParamNames returns the parameter names of fd after checking their printed types.
+func gasParamNames(fset *token.FileSet, fd *ast.FuncDecl, types ...string) ([]string, error) {
+	var names, got []string
+	for _, fl := range fd.Type.Params.List {
+		for _, n := range fl.Names {
+			names = append(names, n.Name)
+			got = append(got, flat(fset, fl.Type))
+		}
+	}
+	if strings.Join(got, ",") != strings.Join(types, ",") {
+		return nil, fmt.Errorf("%s: parameter types (%s), expected (%s)", fd.Name.Name, strings.Join(got, ","), strings.Join(types, ","))
+	}
+	return names, nil
+}
+
 func genGas(repo string) (string, error) {
 	var sb strings.Builder
 	sb.WriteString("namespace OntVerif.Gen.Gas\n\n")
@@ -196,71 +593,94 @@ func genGas(repo string) (string, error) {
 		}
 		fmt.Fprintf(&sb, "/-- %s: `%s` -/\ndef %s : %s := %s\n\n", neovmCfg, c.name, c.lean, c.ty, v)
 	}
-	fset, f, err := parseFile(repo, gasFile)
+	fset, funcs, err := pkgFuncs(repo, gasPkg)
 	if err != nil {
 		return "", err
 	}
-	// calcGasByCodeLen: `return uint64(codeLen/neovm.PER_UNIT_CODE_LEN) * codeGas`
-	fn := findFunc(f, "calcGasByCodeLen")
-	if fn == nil || len(fn.Body.List) != 1 {
-		return "", fmt.Errorf("%s: calcGasByCodeLen not found or not a single return", gasFile)
-	}
-	ret, ok := fn.Body.List[0].(*ast.ReturnStmt)
-	if !ok || len(ret.Results) != 1 {
-		return "", fmt.Errorf("%s:calcGasByCodeLen: body is not `return e`", gasFile)
-	}
-	mul, ok := ret.Results[0].(*ast.BinaryExpr)
-	if !ok || mul.Op != token.MUL || exprString(fset, mul.Y) != "codeGas" {
-		return "", fmt.Errorf("%s:calcGasByCodeLen: expected `uint64(…) * codeGas`, found `%s`", gasFile, exprString(fset, ret.Results[0]))
-	}
-	conv, ok := mul.X.(*ast.CallExpr)
-	if !ok || exprString(fset, conv.Fun) != "uint64" || len(conv.Args) != 1 {
-		return "", fmt.Errorf("%s:calcGasByCodeLen: expected a uint64(…) conversion, found `%s`", gasFile, exprString(fset, mul.X))
-	}
-	inner, err := intExprToLean(fset, conv.Args[0], map[string]string{"codeLen": "codeLen", "neovm.PER_UNIT_CODE_LEN": "perUnitCodeLen"})
-	if err != nil {
-		return "", fmt.Errorf("%s:calcGasByCodeLen: %v", gasFile, err)
-	}
-	fmt.Fprintf(&sb, "/-- %s:calcGasByCodeLen. Go source: `%s` (the int quotient is non-negative; the conversion truncates to 64 bits) -/\n"+
-		"def calcGasByCodeLen (codeLen : Nat) (codeGas : UInt64) : UInt64 := UInt64.ofNat %s * codeGas\n\n", gasFile, exprString(fset, ret.Results[0]), inner)
 
-	// tuneGasFeeByHeight(height uint32, gas, gasRound, curBalance uint64) uint64
-	fn = findFunc(f, "tuneGasFeeByHeight")
+	// calcGasByCodeLen(codeLen int, codeGas uint64) uint64
+	fn := funcs["calcGasByCodeLen"]
 	if fn == nil {
-		return "", fmt.Errorf("%s: tuneGasFeeByHeight not found", gasFile)
+		return "", fmt.Errorf("%s: calcGasByCodeLen not found", gasPkg)
 	}
-	var params []string
-	for _, fl := range fn.Type.Params.List {
-		for _, n := range fl.Names {
-			params = append(params, n.Name+":"+exprString(fset, fl.Type))
+	ps, err := gasParamNames(fset, fn, "int", "uint64")
+	if err != nil {
+		return "", fmt.Errorf("%s: %v", gasPkg, err)
+	}
+	ct := &gasTr{fset: fset, funcs: funcs, site: gasPkg + ":calcGasByCodeLen", u64: map[string]string{ps[1]: "codeGas"},
+		nat: map[string]string{ps[0]: "codeLen", "neovm.PER_UNIT_CODE_LEN": "perUnitCodeLen"}}
+	ces, err := ct.decisionList(fn)
+	if err != nil {
+		return "", err
+	}
+	for _, e := range ces {
+		if e.check || len(e.divs) > 0 {
+			return "", fmt.Errorf("%s:calcGasByCodeLen: unexpected uint64 division", gasPkg)
 		}
 	}
-	if strings.Join(params, ",") != "height:uint32,gas:uint64,gasRound:uint64,curBalance:uint64" {
-		return "", fmt.Errorf("%s:tuneGasFeeByHeight: unexpected parameters %v", gasFile, params)
+	fmt.Fprintf(&sb, "/-- %s:calcGasByCodeLen (the int quotient is non-negative; the conversion truncates to 64 bits) -/\n"+
+		"def calcGasByCodeLen (codeLen : Nat) (codeGas : UInt64) : UInt64 := %s\n\n", gasPkg, renderPure(ces))
+
+	// tuneGasFeeByHeight(height uint32, gas, gasRound, curBalance uint64) uint64
+	fn = funcs["tuneGasFeeByHeight"]
+	if fn == nil {
+		return "", fmt.Errorf("%s: tuneGasFeeByHeight not found", gasPkg)
 	}
-	body := fn.Body.List
-	// first statement: gasTuneheight := sysconfig.GetGasRoundTuneHeight(…) — becomes a parameter
-	as, ok := body[0].(*ast.AssignStmt)
-	if !ok || len(as.Lhs) != 1 || exprString(fset, as.Lhs[0]) != "gasTuneheight" || !strings.Contains(exprString(fset, as.Rhs[0]), "GetGasRoundTuneHeight(") {
-		return "", fmt.Errorf("%s:tuneGasFeeByHeight: first statement is not `gasTuneheight := …GetGasRoundTuneHeight(…)`", gasFile)
-	}
-	// second: if height > gasTuneheight { … }   third: return gas
-	ifs, ok := body[1].(*ast.IfStmt)
-	if !ok || len(body) != 3 || exprString(fset, ifs.Cond) != "height > gasTuneheight" || ifs.Else != nil {
-		return "", fmt.Errorf("%s:tuneGasFeeByHeight: expected `if height > gasTuneheight {…}; return gas`", gasFile)
-	}
-	tr := &u64tr{fset: fset, idents: map[string]bool{"gas": true, "gasRound": true, "curBalance": true}}
-	inside, err := tr.stmts(ifs.Body.List, "    ")
+	ps, err = gasParamNames(fset, fn, "uint32", "uint64", "uint64", "uint64")
 	if err != nil {
-		return "", fmt.Errorf("%s:tuneGasFeeByHeight: %v", gasFile, err)
+		return "", fmt.Errorf("%s: %v", gasPkg, err)
 	}
-	tr2 := &u64tr{fset: fset, idents: map[string]bool{"gas": true, "gasRound": true, "curBalance": true}}
-	after, err := tr2.stmts(body[2:], "    ")
+	tt := &gasTr{fset: fset, funcs: funcs, site: gasPkg + ":tuneGasFeeByHeight",
+		u64: map[string]string{ps[1]: "gas", ps[2]: "gasRound", ps[3]: "curBalance"}, nat: map[string]string{}}
+	heightParam := ps[0]
+	tt.flag = func(e ast.Expr) (string, bool) {
+		be, ok := e.(*ast.BinaryExpr)
+		if !ok {
+			return "", false
+		}
+		isH := func(x ast.Expr) bool { id, ok := stripParens(x).(*ast.Ident); return ok && id.Name == heightParam }
+		isT := func(x ast.Expr) bool { return tt.isFlagSource(x) }
+		// `height > tuneHeight` (the parameter `tuned`) in any orientation; its negation `height <= tuneHeight`
+		switch {
+		case isH(be.X) && isT(be.Y) && be.Op == token.GTR, isT(be.X) && isH(be.Y) && be.Op == token.LSS:
+			return "(tuned = true)", true
+		case isH(be.X) && isT(be.Y) && be.Op == token.LEQ, isT(be.X) && isH(be.Y) && be.Op == token.GEQ:
+			return "(tuned = false)", true
+		}
+		return "", false
+	}
+	tes, err := tt.decisionList(fn)
 	if err != nil {
-		return "", fmt.Errorf("%s:tuneGasFeeByHeight: %v", gasFile, err)
+		return "", err
 	}
-	fmt.Fprintf(&sb, "/-- %s:tuneGasFeeByHeight, `tuned` = `height > GetGasRoundTuneHeight(networkId)`; `none` = integer divide by zero -/\n"+
-		"def tuneGasFeeByHeight (tuned : Bool) (gas gasRound curBalance : UInt64) : Option UInt64 :=\n  if tuned then\n%s\n  else\n%s\n\n", gasFile, inside, after)
-	sb.WriteString("end OntVerif.Gen.Gas\n")
+	fmt.Fprintf(&sb, "/-- %s:tuneGasFeeByHeight as a decision list (every `return` with the conditions under which it is reached, in source order);\n"+
+		"`tuned` = `height > GetGasRoundTuneHeight(networkId)`; `none` = integer divide by zero -/\n"+
+		"def tuneGasFeeByHeight (tuned : Bool) (gas gasRound curBalance : UInt64) : Option UInt64 :=\n%s\n\n", gasPkg, renderOpt(tes, "  "))
+
+	// fee effects of HandleInvokeTransaction
+	fn = funcs["HandleInvokeTransaction"]
+	if fn == nil {
+		return "", fmt.Errorf("%s: HandleInvokeTransaction not found", gasPkg)
+	}
+	fw := &feeWalker{fset: fset, funcs: funcs}
+	fw.walk(fn, map[string]string{}, 0)
+	if fw.err != nil {
+		return "", fmt.Errorf("%s:HandleInvokeTransaction: %v", gasPkg, fw.err)
+	}
+	if len(fw.effects) == 0 {
+		return "", fmt.Errorf("%s:HandleInvokeTransaction: no fee effect found", gasPkg)
+	}
+	sb.WriteString("/-- " + gasPkg + ":HandleInvokeTransaction — every call of tuneGasFeeByHeight / costInvalidGas / chargeCostGas reachable from it\n" +
+		"(same-package helpers followed), in source order, with the role of the arguments: `old` / `new` = the first / second\n" +
+		"balance read of the function, `tuned` = the result of the preceding tuneGasFeeByHeight, products with sorted factors -/\n" +
+		"def feeEffects : List String := [\n")
+	for i, e := range fw.effects {
+		sep := ","
+		if i == len(fw.effects)-1 {
+			sep = ""
+		}
+		fmt.Fprintf(&sb, "  %q%s\n", e, sep)
+	}
+	sb.WriteString("]\n\nend OntVerif.Gen.Gas\n")
 	return sb.String(), nil
 }
